@@ -10,6 +10,8 @@ CONSTANTS
   CombinerClearsQueueOnFailedFlush = TRUE
   Hash <- HashId
   ReaderReportsHunks = TRUE
+  BkRechecksLock = TRUE
+  AllowConcurrent = FALSE
   GcStopsOnUnreadableHunk = TRUE
 INVARIANTS Inv_Format Inv_NoDangling Inv_SnapRestores Inv_RecordedBytes Inv_CompleteSuccess Inv_SkippedReported Inv_UnchangedStoresNothing
 PROPERTIES Prop_WriteOnce
